@@ -41,8 +41,10 @@ import (
 	eswriter "github.com/siglens/siglens/pkg/es/writer"
 	"github.com/siglens/siglens/pkg/lookups"
 	"github.com/siglens/siglens/pkg/scroll"
+	"github.com/siglens/siglens/pkg/segment/aggregations"
 	"github.com/siglens/siglens/pkg/segment/memory/limit"
 	"github.com/siglens/siglens/pkg/segment/query"
+	"github.com/siglens/siglens/pkg/segment/structs"
 	sutils "github.com/siglens/siglens/pkg/segment/utils"
 	"github.com/siglens/siglens/pkg/segment/writer"
 	"github.com/siglens/siglens/pkg/segment/writer/metrics"
@@ -72,6 +74,7 @@ type H struct {
 	param  string // last route parameter seen by a handler
 	hit    bool
 	qid    uint64
+	curInput string // full request text of the running operation, for the failure report
 	last   map[string]string // snapshot after the previous operation, nil when the tree was touched since
 }
 
@@ -85,7 +88,7 @@ func (h *H) writeSentinels() {
 	for j := 0; j < nSent; j++ {
 		d := h.sentDir(j)
 		tc, tj := fmt.Sprintf("TOKup%dcsv", j+1), fmt.Sprintf("TOKup%djson", j+1)
-		_ = os.WriteFile(d+"/sent.csv", []byte("sa,sb\n"+tc+",1\n"), 0o644)
+		_ = os.WriteFile(d+"/sent.csv", []byte(csvRows(tc, 8)), 0o644)
 		_ = os.WriteFile(d+"/sent.json", []byte(`{"`+tj+`":true}`), 0o644)
 		_ = os.MkdirAll(d+"/victim", 0o755)
 		_ = os.WriteFile(d+"/victim/keep.txt", []byte("keep"), 0o644)
@@ -102,10 +105,25 @@ func (h *H) writeInside() {
 		"/lookups/sub/deep.csv": "TOKindeep",
 		"/top.csv":              "TOKdatatop",
 	}
+	if _, err := os.Stat(h.data + "/lookups/big.csv"); err != nil {
+		// more rows than one result batch (100): the processor re-opens the file per batch
+		_ = os.WriteFile(h.data+"/lookups/big.csv", []byte(csvRows("TOKinbig", 350)), 0o644)
+	}
+	h.tokens["TOKinbig"] = h.data + "/lookups/big.csv"
 	for p, t := range in {
-		_ = os.WriteFile(h.data+p, []byte("sa,sb\n"+t+",1\n"), 0o644)
+		_ = os.WriteFile(h.data+p, []byte(csvRows(t, 8)), 0o644)
 		h.tokens[t] = h.data + p
 	}
+}
+
+// a CSV whose every data row carries the token, so that start=N / max=N still return it
+func csvRows(tok string, n int) string {
+	var sb strings.Builder
+	sb.WriteString("sa,sb\n")
+	for i := 1; i <= n; i++ {
+		fmt.Fprintf(&sb, "%s,%d\n", tok, i)
+	}
+	return sb.String()
 }
 
 // remove everything outside the data directory that is not a pristine sentinel
@@ -297,6 +315,7 @@ type opRes struct {
 	Diff   diffT    `json:"-"`
 	Body   string   `json:"-"`
 	Read   []string `json:"read,omitempty"` // files whose token came back in the response
+	Query  string   `json:"query,omitempty"`
 }
 
 // direct=true: handler called with a hand-made route parameter (a value no client can deliver
@@ -306,7 +325,7 @@ func (h *H) op(site string, nc nameCase, direct bool, f func() (int, string)) *o
 	if before == nil {
 		before = h.snap()
 	}
-	res := &opRes{Site: site, Name: nc.Name, Stream: nc.Stream}
+	res := &opRes{Site: site, Name: nc.Name, Stream: nc.Stream, Query: h.curInput}
 	func() {
 		defer func() {
 			if r := recover(); r != nil {
@@ -367,7 +386,11 @@ func (h *H) op(site string, nc nameCase, direct bool, f func() (int, string)) *o
 				h.restoreOutside()
 				return res
 			}
-			h.sum.Fail(class, fmt.Sprintf("%s with name %q (status %d): %s [data dir %s]", site, nc.Name, res.Status, bad[0], h.data), res)
+			in := ""
+			if h.curInput != "" {
+				in = fmt.Sprintf(" in %q", h.curInput)
+			}
+			h.sum.Fail(class, fmt.Sprintf("%s with name %q%s (status %d): %s [data dir %s]", site, nc.Name, in, res.Status, bad[0], h.data), res)
 		}
 		h.restoreOutside()
 	}
@@ -535,6 +558,46 @@ func (h *H) lookupSites(nc nameCase, i int) {
 	}
 }
 
+// lookup upload variants: extension of the uploaded file x overwrite x destination present or not
+func (h *H) uploadVariantsSite() {
+	names := []nameCase{
+		{"../../sent.csv", "defect", "up2"}, {"../../sent", "defect", "up2"}, {"../../../victim/keep.txt", "defect", "up3"},
+		{"..", "defect", "up1_bare"}, {"a/b", "main", "slash"}, {"variant_x", "main", "plain"}, {"in.csv", "main", "plain"}, {"IN2.CSV", "main", "plain"},
+	}
+	for _, nc := range names {
+		for _, fn := range []string{"x.csv", "x.csv.gz", "X.CSV"} {
+			for _, ow := range []string{"", "true", "false"} {
+				gz := strings.HasSuffix(strings.ToLower(fn), ".csv.gz")
+				var body bytes.Buffer
+				w := multipart.NewWriter(&body)
+				_ = w.WriteField("name", nc.Name)
+				if ow != "" {
+					_ = w.WriteField("overwrite", ow)
+				}
+				fw, _ := w.CreateFormFile("file", fn)
+				_, _ = fw.Write([]byte("a,b\nVARIANT,2\n"))
+				w.Close()
+				res := h.op("lookup_upload", nc, false, func() (int, string) {
+					ctx := newCtx("POST", "", body.Bytes())
+					ctx.Request.Header.SetContentType(w.FormDataContentType())
+					lookups.UploadLookupFile(ctx)
+					return resp(ctx)
+				})
+				h.sum.Count("lookup_upload_variants/" + fn + "/overwrite=" + ow)
+				touched := pickSuffix(cat(res.Diff.created, res.Diff.modified), ".csv", ".csv.gz", ".CSV")
+				if res.Status == 200 && len(touched) == 1 {
+					existed := len(res.Diff.modified) == 1
+					h.obs(fmt.Sprintf("LookupUploadV %s %s %s %s", vhlib.CoqStr(nc.Name), vhlib.CoqBool(gz), vhlib.CoqBool(ow == "true"), vhlib.CoqBool(existed)), touched[0])
+				}
+				if res.Status != -1 {
+					safeObs(nc.Name, !(res.Status == 400 && (strings.Contains(res.Body, "Invalid file name") || strings.Contains(res.Body, "File name is required"))))
+				}
+				h.writeInside()
+			}
+		}
+	}
+}
+
 var inputGuard []string
 
 // (name, accepted by the site's IsSafePathComponent check) for sites where a refusal is visible
@@ -542,6 +605,117 @@ var safeGuard []string
 
 func safeObs(name string, accepted bool) {
 	safeGuard = append(safeGuard, fmt.Sprintf("(%s, %s)", vhlib.CoqStr(name), vhlib.CoqBool(accepted)))
+}
+
+// what the REAL SPL parser makes of the query: file name and every option the processor gets
+type ilParsed struct {
+	ok                            bool
+	Filename                      string
+	Start, Max                    uint64
+	Append, Strict, Where, First bool
+	node                          *structs.QueryAggregators
+}
+
+func (q ilParsed) coq() string {
+	return fmt.Sprintf("(mk_il %d %d %s %s %s %s)", q.Start, q.Max, vhlib.CoqBool(q.Append), vhlib.CoqBool(q.Strict), vhlib.CoqBool(q.Where), vhlib.CoqBool(q.First))
+}
+
+func parseIL(text string) (q ilParsed) {
+	defer func() { _ = recover() }()
+	_, aggs, _, err := pipesearch.ParseQuery(text, 1, "Splunk QL")
+	if err != nil {
+		return
+	}
+	for a := aggs; a != nil; a = a.Next {
+		if a.GenerateEvent != nil && a.GenerateEvent.InputLookup != nil {
+			il := a.GenerateEvent.InputLookup
+			return ilParsed{true, il.Filename, il.Start, il.Max, il.Append, il.Strict, il.WhereExpr != nil, il.IsFirstCommand, a}
+		}
+	}
+	return
+}
+
+// the whole query through the real request path (new pipeline: processor.inputlookupProcessor)
+func (h *H) runQuery(text string) (int, string) {
+	h.qid++
+	req := map[string]interface{}{
+		"searchText": text, "indexName": "*", "startEpoch": uint64(1), "endEpoch": uint64(1900000000000),
+		"size": uint64(1000), "from": uint64(0), "queryLanguage": "Splunk QL", "state": "query",
+	}
+	type r struct {
+		body string
+		err  string
+	}
+	ch := make(chan r, 1)
+	qid := h.qid
+	go func() {
+		defer func() {
+			if p := recover(); p != nil {
+				ch <- r{err: fmt.Sprintf("panic: %v", p)}
+			}
+		}()
+		rp, _, _, err := pipesearch.ParseAndExecutePipeRequest(req, qid, 0, time.Now(), "", nil)
+		if err != nil {
+			ch <- r{err: err.Error()}
+			return
+		}
+		b, _ := json.Marshal(rp)
+		ch <- r{body: string(b)}
+	}()
+	select {
+	case x := <-ch:
+		if x.err != "" {
+			return 400, x.err
+		}
+		return 200, x.body
+	case <-time.After(20 * time.Second):
+		return -2, "timeout"
+	}
+}
+
+// old pipeline: aggregations.PerformInputLookup on the node the real parser produced
+func runOldInputLookup(text string) (int, string) {
+	q := parseIL(text)
+	if !q.ok {
+		return 404, "not an inputlookup query"
+	}
+	if err := aggregations.PerformInputLookup(q.node); err != nil {
+		return 400, err.Error()
+	}
+	b, _ := json.Marshal(q.node.GenerateEvent.GeneratedRecords)
+	return 200, string(b)
+}
+
+// one inputlookup query: oracle (through op), then the model comparison with the parsed options
+func (h *H) inputlookupQuery(site string, nc nameCase, text string, old bool) {
+	q := parseIL(text)
+	h.curInput = text
+	res := h.op(site, nameCase{nc.Name, nc.Stream, nc.Kind}, false, func() (int, string) {
+		if old {
+			return runOldInputLookup(text)
+		}
+		return h.runQuery(text)
+	})
+	h.curInput = ""
+	if res.Status == -2 {
+		h.sum.Fail("inputlookup_hang", "inputlookup did not return for "+text, res)
+	}
+	if !q.ok {
+		h.sum.Count("inputlookup/query_not_parsed_as_inputlookup")
+		return
+	}
+	h.sum.Count(fmt.Sprintf("inputlookup_opts/start=%d", q.Start))
+	if res.Status == 200 && len(res.Read) == 1 {
+		h.obs(fmt.Sprintf("InputLookup %s %s", q.coq(), vhlib.CoqStr(q.Filename)), res.Read[0])
+	}
+	refused := strings.Contains(res.Body, "Only .csv and .csv.gz") || strings.Contains(res.Body, "invalid lookup file name")
+	opened := strings.Contains(res.Body, "Error while opening file") || strings.Contains(res.Body, "Error reading column names") ||
+		strings.Contains(res.Body, "Error skipping rows") || (res.Status == 200 && len(res.Read) == 1)
+	if res.Status == 400 && refused {
+		inputGuard = append(inputGuard, fmt.Sprintf("(%s, (%s, false))", q.coq(), vhlib.CoqStr(q.Filename)))
+	} else if opened {
+		inputGuard = append(inputGuard, fmt.Sprintf("(%s, (%s, true))", q.coq(), vhlib.CoqStr(q.Filename)))
+	}
 }
 
 func (h *H) inputlookupSite(nc nameCase) {
@@ -554,53 +728,78 @@ func (h *H) inputlookupSite(nc nameCase) {
 		if ext != "" && strings.HasSuffix(name, ".csv") {
 			continue
 		}
-		var errStr string
-		res := h.op("inputlookup_read", nameCase{fname, nc.Stream, nc.Kind}, false, func() (int, string) {
-			h.qid++
-			req := map[string]interface{}{
-				"searchText": "| inputlookup " + fname, "indexName": "*", "startEpoch": uint64(1), "endEpoch": uint64(1900000000000),
-				"size": uint64(100), "from": uint64(0), "queryLanguage": "Splunk QL", "state": "query",
+		h.inputlookupQuery("inputlookup_read", nameCase{fname, nc.Stream, nc.Kind}, "| inputlookup "+fname, false)
+	}
+}
+
+// Every client-controlled option of the command x the escape-name corpus, through the real
+// parser and BOTH implementations.  The sentinels outside the data dir must never be read,
+// whatever the options say.
+func (h *H) inputlookupOptionsSite(r *vhlib.Rng, thorough bool) {
+	type nm struct{ n, stream, kind string }
+	corpus := []nm{
+		{"../../sent.csv", "defect", "up2"}, {"../../../sent.csv", "defect", "up3"}, {"../../../../sent.csv", "defect", "up4"},
+		{"sub/../../../sent.csv", "defect", "up2_after_down"}, {"/../../sent.csv", "defect", "abs_up2"},
+		{"../../victim/keep.txt", "defect", "up2"}, {"../../sent", "defect", "up2"}, {"../../sent.json", "defect", "up2"},
+		{"..\\..\\sent.csv", "main", "backslash"}, {"../top.csv", "main", "up_within_data"},
+		{"in.csv", "main", "plain"}, {"big.csv", "main", "plain"}, {"sub/deep.csv", "main", "slash"},
+		{"nonexistent.csv", "main", "plain"}, {"in", "main", "plain"},
+	}
+	starts := []string{"", "start=0", "start=1", "start=2", "start=7", "start=120"}
+	maxs := []string{"", "max=1", "max=1000"}
+	apps := []string{"", "append=false", "append=true"}
+	stricts := []string{"", "strict=true"}
+	wheres := []string{"", " where sb>0"}
+	mk := func(first bool, st, mx, ap, sr, wh, name, tail string) string {
+		var opts []string
+		for _, o := range []string{ap, sr, st, mx} {
+			if o != "" {
+				opts = append(opts, o)
 			}
-			type r struct {
-				body string
-				err  string
-			}
-			ch := make(chan r, 1)
-			go func() {
-				defer func() {
-					if p := recover(); p != nil {
-						ch <- r{err: fmt.Sprintf("panic: %v", p)}
+		}
+		pre := "| inputlookup "
+		if !first {
+			pre = "index=normal | inputlookup "
+		}
+		if len(opts) > 0 {
+			pre += strings.Join(opts, " ") + " "
+		}
+		return pre + name + wh + tail
+	}
+	run := func(c nm, first bool, st, mx, ap, sr, wh, tail string) {
+		if !first {
+			ap = "append=true" // the grammar requires it for a non-first inputlookup
+		}
+		text := mk(first, st, mx, ap, sr, wh, c.n, tail)
+		nc := nameCase{c.n, c.stream, c.kind}
+		h.inputlookupQuery("inputlookup_read", nc, text, false)
+		if first && tail == "" {
+			h.inputlookupQuery("inputlookup_read_oldpipeline", nc, text, true)
+		}
+	}
+	for ci, c := range corpus {
+		full := thorough || ci == 0 || c.n == "in.csv"
+		for _, st := range starts {
+			if full {
+				for _, mx := range maxs {
+					for _, ap := range apps {
+						for _, sr := range stricts {
+							for _, wh := range wheres {
+								if !thorough && (sr != "" || wh != "") && (mx != "" || ap != "") {
+									continue
+								}
+								run(c, true, st, mx, ap, sr, wh, "")
+							}
+						}
 					}
-				}()
-				rp, _, _, err := pipesearch.ParseAndExecutePipeRequest(req, h.qid, 0, time.Now(), "", nil)
-				if err != nil {
-					ch <- r{err: err.Error()}
-					return
 				}
-				b, _ := json.Marshal(rp)
-				ch <- r{body: string(b)}
-			}()
-			select {
-			case x := <-ch:
-				errStr = x.err
-				if x.err != "" {
-					return 400, x.err
-				}
-				return 200, x.body
-			case <-time.After(20 * time.Second):
-				return -2, "timeout"
+			} else {
+				run(c, true, st, "", "", "", "", "")
+				run(c, true, st, vhlib.Pick(r, maxs), vhlib.Pick(r, apps), vhlib.Pick(r, stricts), vhlib.Pick(r, wheres), "")
 			}
-		})
-		if res.Status == -2 {
-			h.sum.Fail("inputlookup_hang", "inputlookup did not return for "+fname, res)
-		}
-		if res.Status == 200 && len(res.Read) == 1 {
-			h.obs("InputLookup "+vhlib.CoqStr(fname), res.Read[0])
-		}
-		if strings.Contains(errStr, "Only .csv and .csv.gz") || strings.Contains(errStr, "invalid lookup file name") {
-			inputGuard = append(inputGuard, fmt.Sprintf("(%s, false)", vhlib.CoqStr(fname)))
-		} else if strings.Contains(errStr, "Error while opening file") || (res.Status == 200 && len(res.Read) == 1) {
-			inputGuard = append(inputGuard, fmt.Sprintf("(%s, true)", vhlib.CoqStr(fname)))
+			// not the first command, and followed by another command
+			run(c, false, st, vhlib.Pick(r, maxs), "append=true", "", "", "")
+			run(c, true, st, "", "", "", "", " | head 3")
 		}
 	}
 }
@@ -1098,7 +1297,7 @@ func (h *H) writeSiteCases() {
 		h.sum.WriteCaseFile(h.cfg.Out, "cases_safe_component", "From SigM Require Import Base Paths PathsCheck.\n", defs, "check_safe cases", len(safeGuard))
 	}
 	if len(inputGuard) > 0 {
-		defs := "Definition cases : list (list N * bool) := " + vhlib.CoqListNL(inputGuard) + ".\n"
+		defs := "Definition cases : list (il_opts * (list N * bool)) := " + vhlib.CoqListNL(inputGuard) + ".\n"
 		h.sum.WriteCaseFile(h.cfg.Out, "cases_inputlookup_guard", "From SigM Require Import Base Paths PathsCheck.\n", defs, "check_inputlookup_guard cases", len(inputGuard))
 	}
 }
@@ -1188,6 +1387,8 @@ func main() {
 			sum.Sample(map[string]interface{}{"name": nc.Name, "stream": nc.Stream, "kind": nc.Kind})
 		}
 	}
+	timed("inputlookup_options", func() { h.inputlookupOptionsSite(r.Fork(), cfg.Thorough()) })
+	timed("upload_variants", func() { h.uploadVariantsSite() })
 	for i, nc := range names {
 		timed("metrics", func() { h.metricsNameSite(nc, i) })
 	}
